@@ -100,6 +100,7 @@ pub struct Agg {
     pub samples: Vec<(u64, Value)>,
     pub violations: Vec<(u64, Value, Violation, u64)>, // idx, scenario, violation, trace hash
     pub relevant_evals: u64,
+    pub viol_counts: BTreeMap<String, u64>,
 }
 
 impl Agg {
@@ -116,6 +117,9 @@ impl Agg {
         self.hash_sum = self.hash_sum.wrapping_add(o.hash_sum);
         self.samples.extend(o.samples);
         self.violations.extend(o.violations);
+        for (k, v) in o.viol_counts {
+            *self.viol_counts.entry(k).or_insert(0) += v;
+        }
     }
 }
 
@@ -185,9 +189,12 @@ pub fn run_family<F: Family>(f: &F, cfg: &RunCfg) -> Agg {
                             ));
                         }
                         for v in &out.violations {
-                            if v.property == cfg.property {
-                                let n = nviol.fetch_add(1, Ordering::Relaxed);
-                                if (n as usize) < cfg.max_violations * 4 {
+                            if v.property == cfg.property && cfg.max_violations > 0 {
+                                nviol.fetch_add(1, Ordering::Relaxed);
+                                let c = agg.viol_counts.entry(v.oracle.clone()).or_insert(0);
+                                *c += 1;
+                                // keep the few lowest-index cases of every oracle (per worker; merged and sorted later)
+                                if *c <= 3 {
                                     agg.violations.push((idx * 100000 + sub, serde_json::to_value(&sc).unwrap(), v.clone(), out.trace_hash));
                                 }
                             }
